@@ -123,6 +123,20 @@ func init() {
 	for _, pp := range []string{"C08", "C09", "C10", "C11"} {
 		add(pp, "C19", "C19.R2~^cmd\\.timestampValue")
 	}
+	// borrowed after the tenth seeding round
+	add("C06", "C04", "C04.R1")
+	add("C07", "C19", "C19.R3~^ParseArchiveInfo:rejects")
+	add("C09", "C12", "C12.R6~^glob(Files|Items)Remote:")
+	add("C11", "C08", "C08.R6")
+	add("C13", "C14", "C14.R5~retry-buffer")
+	add("C14", "C07", "C07.R1~^whispertool\\.Header\\.TakeFrom:must")
+	add("C16", "C08", "C08.R9~writes-every-point")
+	add("C18", "C14", "C14.R6~zero-series")
+	add("C12", "C14", "C14.R6~zero-series")
+	add("C19", "C20", "C20.R6~^cmd\\.(archiveInfoList|aggregationMethod|timestamp)Value")
+	add("C15", "C04", "C04.R4~^findBestArchive")
+	add("C01", "C04", "C04.R4~^findBestArchive")
+	add("C03", "C04", "C04.R4~^findBestArchive")
 	// what Open reads first lies inside every valid file; the six storable methods are the ones the reference writes
 	add("C06", "C14", "C14.R5~first-read")
 	add("C06", "C02", "C02.R2~^validateAggregationMethod")
